@@ -1,7 +1,10 @@
 /- aggregator: property theorems of C01 plus the source-tie theorems regenerated from the C++
    (whole functions setIdentity, matrix, composition, inverse; manifest of translated functions), plus the
-   rounding theorems in the standard model of floating-point arithmetic (C01Round) -/
+   rounding theorems in the standard model of floating-point arithmetic (C01Round: SO2 C1 Tn SO3 SE2 SE3 composition and
+   inverse; C01RoundB: the actions, Galilei, SE_K_3, associativity; C01RoundC: every nested Bundle) -/
 import SmoothProps.C01
 import SmoothProps.C01Round
+import SmoothProps.C01RoundB
+import SmoothProps.C01RoundC
 import SmoothProps.SrcTieImpl
 import SmoothProps.SrcTieImplC01
